@@ -20,6 +20,7 @@ package pool
 //   VERIF_POOL_NOFILL      "1" disables the fill on Get
 
 import (
+	"bytes"
 	"encoding/json"
 	"fmt"
 	"os"
@@ -57,31 +58,59 @@ type VerifStats struct {
 	Reports        uint64 `json:"reports"`
 }
 
+const verifShards = 16
+
+// The quarantine is sharded by array address so that concurrent releases
+// do not serialise on one lock. Each shard is a FIFO with 1/16 of the budget.
+type verifShard struct {
+	mu     sync.Mutex
+	q      []verifQEntry
+	head   int
+	qBytes int
+	inQ    map[uintptr]int // base ptr -> index+1 into q
+	_      [64]byte
+}
+
 var (
-	verifMu      sync.Mutex
-	verifQ       []verifQEntry
-	verifQHead   int
-	verifQBytes  int
-	verifInQ     = map[uintptr]int{} // base ptr -> index+1 into verifQ
-	verifMaxN    = 4096
-	verifMaxB    = 16 << 20
+	verifSh      [verifShards]verifShard
+	verifMaxN    atomic.Int64 // total, all shards
+	verifMaxB    atomic.Int64
 	verifFill    = true
 	verifLogPath string
+	verifRepMu   sync.Mutex
 	verifReports []VerifReport
 
 	verifGets, verifReleases, verifExits, verifReportN atomic.Uint64
 	verifRng                                           atomic.Uint64
+
+	verifPoisonBlock [4096]byte
+	verifNoise       [16384]byte
 )
 
 func init() {
+	for i := range verifPoisonBlock {
+		verifPoisonBlock[i] = verifPoison
+	}
+	x := uint64(time.Now().UnixNano()) | 1
+	for i := range verifNoise {
+		x ^= x << 13
+		x ^= x >> 7
+		x ^= x << 17
+		verifNoise[i] = byte(x >> 32)
+	}
+	verifMaxN.Store(4096)
+	verifMaxB.Store(16 << 20)
+	for i := range verifSh {
+		verifSh[i].inQ = map[uintptr]int{}
+	}
 	if s := os.Getenv("VERIF_POOL_QUARANTINE"); s != "" {
 		if n, err := strconv.Atoi(s); err == nil {
-			verifMaxN = n
+			verifMaxN.Store(int64(n))
 		}
 	}
 	if s := os.Getenv("VERIF_POOL_QBYTES"); s != "" {
 		if n, err := strconv.Atoi(s); err == nil {
-			verifMaxB = n
+			verifMaxB.Store(int64(n))
 		}
 	}
 	if os.Getenv("VERIF_POOL_NOFILL") == "1" {
@@ -101,9 +130,10 @@ func init() {
 
 // VerifSetQuarantine changes the quarantine size at run time (0 = off).
 func VerifSetQuarantine(n int) {
-	verifMu.Lock()
-	verifMaxN = n
-	verifMu.Unlock()
+	verifMaxN.Store(int64(n))
+	if n <= 0 {
+		VerifDrain()
+	}
 }
 
 func VerifGetStats() VerifStats {
@@ -117,8 +147,8 @@ func VerifGetStats() VerifStats {
 
 // VerifTakeReports returns and clears the reports collected so far.
 func VerifTakeReports() []VerifReport {
-	verifMu.Lock()
-	defer verifMu.Unlock()
+	verifRepMu.Lock()
+	defer verifRepMu.Unlock()
 	r := verifReports
 	verifReports = nil
 	return r
@@ -157,8 +187,9 @@ func verifStack(pcs [10]uintptr) string {
 	return s
 }
 
-// must be called with verifMu held
-func verifReportLocked(r VerifReport) {
+func verifReport(r VerifReport) {
+	verifRepMu.Lock()
+	defer verifRepMu.Unlock()
 	verifReportN.Add(1)
 	if len(verifReports) < 1000 {
 		verifReports = append(verifReports, r)
@@ -177,13 +208,14 @@ func verifGet(size int) Buffer {
 	b := bytespool.Get(size)
 	verifGets.Add(1)
 	if c := cap(b); c > 0 && verifFill {
+		// bulk copies from a random table at a varying offset (cheap under -race)
 		full := b[:c]
 		x := verifRng.Add(0x9E3779B97F4A7C15)
-		for i := 0; i < c; i++ {
-			x ^= x << 13
-			x ^= x >> 7
-			x ^= x << 17
-			full[i] = byte(x >> 32)
+		x ^= x >> 29
+		start := int(x % uint64(len(verifNoise)-4096))
+		for off := 0; off < c; {
+			off += copy(full[off:], verifNoise[start:start+4096])
+			start = (start + 4099) % (len(verifNoise) - 4096)
 		}
 	}
 	return b
@@ -196,74 +228,86 @@ func verifRelease(b Buffer) bool {
 		return false // let bytespool handle (and panic on nil as usual)
 	}
 	verifReleases.Add(1)
+	maxN := int(verifMaxN.Load())
+	if maxN <= 0 {
+		return false
+	}
 	full := b[:c]
 	base := uintptr(unsafe.Pointer(unsafe.SliceData(full)))
 	site := verifSite()
+	sh := &verifSh[(base>>6)%verifShards]
 
-	verifMu.Lock()
-	if verifMaxN <= 0 {
-		verifDrainLocked(0, 0)
-		verifMu.Unlock()
-		return false
-	}
-	if idx, dup := verifInQ[base]; dup {
-		verifReportLocked(VerifReport{Kind: "double-release", Cap: c, Site: verifStack(site), Site0: verifStack(verifQ[idx-1].site)})
-		verifMu.Unlock()
+	sh.mu.Lock()
+	if idx, dup := sh.inQ[base]; dup {
+		site0 := sh.q[idx-1].site
+		sh.mu.Unlock()
+		verifReport(VerifReport{Kind: "double-release", Cap: c, Site: verifStack(site), Site0: verifStack(site0)})
 		return true // drop the second release, the array is already parked
 	}
-	verifMu.Unlock()
+	sh.mu.Unlock()
 	// The releasing goroutine still owns the array here (unless this is a
 	// racing double release, which the re-check below catches).
-	for i := range full {
-		full[i] = verifPoison
+	for off := 0; off < c; {
+		off += copy(full[off:], verifPoisonBlock[:])
 	}
-	verifMu.Lock()
-	if idx, dup := verifInQ[base]; dup {
-		verifReportLocked(VerifReport{Kind: "double-release", Cap: c, Site: verifStack(site), Site0: verifStack(verifQ[idx-1].site)})
-		verifMu.Unlock()
+	sh.mu.Lock()
+	if idx, dup := sh.inQ[base]; dup {
+		site0 := sh.q[idx-1].site
+		sh.mu.Unlock()
+		verifReport(VerifReport{Kind: "double-release", Cap: c, Site: verifStack(site), Site0: verifStack(site0)})
 		return true
 	}
-	verifQ = append(verifQ, verifQEntry{b: full, site: site})
-	verifInQ[base] = len(verifQ)
-	verifQBytes += c
-	verifDrainLocked(verifMaxN, verifMaxB)
-	verifMu.Unlock()
+	sh.q = append(sh.q, verifQEntry{b: full, site: site})
+	sh.inQ[base] = len(sh.q)
+	sh.qBytes += c
+	sh.drainLocked(maxN/verifShards, int(verifMaxB.Load())/verifShards)
+	sh.mu.Unlock()
 	return true
 }
 
-// must be called with verifMu held
-func verifDrainLocked(maxN, maxB int) {
-	for verifQHead < len(verifQ) && (len(verifQ)-verifQHead > maxN || verifQBytes > maxB) {
-		e := verifQ[verifQHead]
-		verifQ[verifQHead] = verifQEntry{}
-		verifQHead++
-		verifQBytes -= len(e.b)
-		delete(verifInQ, uintptr(unsafe.Pointer(unsafe.SliceData(e.b))))
+// must be called with sh.mu held
+func (sh *verifShard) drainLocked(maxN, maxB int) {
+	for sh.head < len(sh.q) && (len(sh.q)-sh.head > maxN || sh.qBytes > maxB) {
+		e := sh.q[sh.head]
+		sh.q[sh.head] = verifQEntry{}
+		sh.head++
+		sh.qBytes -= len(e.b)
+		delete(sh.inQ, uintptr(unsafe.Pointer(unsafe.SliceData(e.b))))
 		verifExits.Add(1)
-		for i, v := range e.b {
-			if v != verifPoison {
-				verifReportLocked(VerifReport{Kind: "write-after-release", Cap: len(e.b), Site: "quarantine-exit", Site0: verifStack(e.site), Off: i})
-				break
+		for off := 0; off < len(e.b); off += len(verifPoisonBlock) {
+			chunk := e.b[off:min(off+len(verifPoisonBlock), len(e.b))]
+			if bytes.Equal(chunk, verifPoisonBlock[:len(chunk)]) {
+				continue
 			}
+			for i, v := range chunk {
+				if v != verifPoison {
+					verifReport(VerifReport{Kind: "write-after-release", Cap: len(e.b), Site: "quarantine-exit", Site0: verifStack(e.site), Off: off + i})
+					break
+				}
+			}
+			break
 		}
 		bytespool.Release(e.b)
 	}
-	if verifQHead > 1024 && verifQHead*2 > len(verifQ) { // compact
-		n := copy(verifQ, verifQ[verifQHead:])
-		for i := n; i < len(verifQ); i++ {
-			verifQ[i] = verifQEntry{}
+	if sh.head > 256 && sh.head*2 > len(sh.q) { // compact
+		n := copy(sh.q, sh.q[sh.head:])
+		for i := n; i < len(sh.q); i++ {
+			sh.q[i] = verifQEntry{}
 		}
-		verifQ = verifQ[:n]
-		verifQHead = 0
-		for i, e := range verifQ {
-			verifInQ[uintptr(unsafe.Pointer(unsafe.SliceData(e.b)))] = i + 1
+		sh.q = sh.q[:n]
+		sh.head = 0
+		for i, e := range sh.q {
+			sh.inQ[uintptr(unsafe.Pointer(unsafe.SliceData(e.b)))] = i + 1
 		}
 	}
 }
 
 // VerifDrain empties the quarantine (verifying every canary).
 func VerifDrain() {
-	verifMu.Lock()
-	verifDrainLocked(0, 0)
-	verifMu.Unlock()
+	for i := range verifSh {
+		sh := &verifSh[i]
+		sh.mu.Lock()
+		sh.drainLocked(0, 0)
+		sh.mu.Unlock()
+	}
 }
